@@ -326,6 +326,14 @@ def _value_columns(case):
         if cdt and dt != "all":
             dtypes = dict(dtypes or {}, count=np.dtype(cdt))
         raised = None
+        if mode["via"] == "lib" and mode["dtypes"] is None:
+            # an earlier call in the same process on an INT32 source, also without `dtypes`: nothing of it may carry over
+            src0, out0 = src + ".warm.cool", out + ".warm.cool"
+            try:
+                gen.write_cooler(src0, bins, [[i, j, 1 + (v % 5)] for i, j, v in pixels])
+                impl(cooler.coarsen_cooler, src0, out0, k, chunksize=cs)
+            finally:
+                _unlink(src0, out0)
         if mode["via"] == "cli":
             from click.testing import CliRunner
             from cooler.cli import cli
@@ -345,8 +353,10 @@ def _value_columns(case):
             kw = {}
             if any(aggs.get(c) for c in order):
                 kw["agg"] = {c: aggs[c] for c in order if aggs.get(c)}
+            if dtypes is not None or mode.get("explicit_none"):
+                kw["dtypes"] = dtypes               # otherwise the argument is OMITTED (not the same as passing None)
             try:
-                cooler.coarsen_cooler(src, out, k, chunksize=cs, columns=list(order), dtypes=dtypes, **kw)
+                cooler.coarsen_cooler(src, out, k, chunksize=cs, columns=list(order), **kw)
             except Exception as e:  # noqa: refusal of a sum that does not fit is an allowed outcome
                 raised = type(e).__name__
             where = {"call": f"coarsen_cooler(k={k}, chunksize={cs}, columns={list(order)}, dtypes={dtypes}, agg={kw.get('agg')})"}
@@ -484,6 +494,10 @@ def _widths(rng, style, nb, k=2):
         return [rng.randint(1, 9) for _ in range(nb)]
     if style == "unit":
         return [1] * nb
+    if style == "giga":
+        # irregular bins of 4-9 x 10^8 bp, at most two per chromosome: each chromosome stays below 2^31, the GENOME
+        # (absolute positions, three or more chromosomes) does not
+        return [rng.randint(4, 9) * 10 ** 8 for _ in range(nb)]
     # variable table whose k-coarsened bins look uniform (width b), last coarse bin shorter / equal / longer
     b = 12
     ws = []
@@ -504,7 +518,10 @@ def _table(rng, nmax, style=None, k=2):
     layout = gen.split_layout(rng, n)
     if rng.random() < 0.2 and n >= 2:
         layout = [1] * min(n, 3) if rng.random() < 0.5 else [1, n - 1]
-    style = style or rng.choice(["fixed", "fixed", "short", "var", "var", "unit", "looks", "looks-long"])
+    style = style or rng.choice(["fixed", "fixed", "short", "var", "var", "unit", "looks", "looks-long", "giga"])
+    if style == "giga":
+        n = max(n, 6)
+        layout = [2] * (n // 2) + ([1] if n % 2 else [])
     bins = []
     for c, nb in enumerate(layout):
         bins += gen.chrom_bins(c, _widths(rng, style, nb, k))
@@ -598,7 +615,7 @@ def cases(tier, rng):
                 "dtypes": [None, "empty", "w_only", "all"][(t // 4) % 4],
                 "agg": {"count": rng.choice([None, None, "sum"]), "w": rng.choice([None, "max", "min", "first", "last", "sum"])},
                 "order": rng.choice([["count", "w"], ["w", "count"]]),
-                "count_dtype": rng.choice([None, "int64"]) if big else None}
+                "count_dtype": rng.choice([None, "int64"]) if big else None, "explicit_none": rng.random() < 0.3}
         yield "value_columns", {"bins": bins, "pixels": px, "k": rng.randint(2, len(bins) + 1), "chunksize": rng.randint(1, 6),
                                 "mode": mode}
     # units
